@@ -312,6 +312,14 @@ func negotiateSession(ctx context.Context, location, origin jid.JID, rw io.ReadW
 		if err != nil {
 			return s, err
 		}
+		// Reads and writes on transports without deadlines cannot be interrupted,
+		// but a context that ended during the step must not go unnoticed (unless
+		// the step already made the session ready).
+		if s.state&Ready == 0 {
+			if err = ctx.Err(); err != nil {
+				return s, err
+			}
+		}
 		restart = rw != nil
 		if rw != nil {
 			for k := range s.features {
